@@ -1,8 +1,10 @@
 """C01 - untrusted font data is rejected with an error, never a crash.
 
 TLC (MC_FaultModel): (a) enumerates the abstract fault sequences of FaultModel.tla by (kind, role,
-value class, level; value classes = eleven byte-level ones and, for offset / index fields, the
-reference classes self / parent) - every sequence of at most two faults, thorough: triples on directory / header
+value class, level; value classes = eleven byte-level ones, for offset / index fields the
+reference classes self / parent, and for fields that are elements of an array the ten relational
+classes: equal to / one above / one below the previous or next element, sum with it wraps the
+field's width as an unsigned / signed number) - every sequence of at most two faults, thorough: triples on directory / header
 fields - one CASE per sequence; (b) applies every concrete fault sequence up to the bound to three
 model files (sfnt, collection, WOFF) and checks the model's own lemmas (the file never grows, the
 container-level expectation is total, the judge's view gives the expectation of Sfnt.tla's reader, a
@@ -46,8 +48,13 @@ ASSUMPTIONS = [
     "the reference classes self / parent are instantiated where the walk knows the containing structure and its parent "
     "(directory records, CFF DICT offsets, SVG / CBLC offsets, composite components, subroutine call operands inside "
     "subroutines, sequence lookup records, seac operands); offsets counted from their own structure have self = 0 = class zero",
-    "quick tier: every structural non-value field is crossed with every value class only on the champion inputs (a cover "
-    "of all kinds of field per table kind; every variable font); elsewhere table-level fields are sampled by seed",
+    "the relational classes (eqprev, eqnext, prev+1, next-1, prev-1, next+1, uwrap-prev/next, swrap-prev/next) are instantiated on "
+    "the fields the walk knows to be elements of an array - of scalars, the same member of consecutive records, or a tuple of "
+    "like values such as minimum / default / maximum - whose neighbour lies inside the table; the sibling's value is read from the "
+    "bytes the fault is applied to; on directory records they are sampled by seed per input (4 quick / 8 thorough per role x class)",
+    "quick tier: every structural non-value field is crossed with every value class, and every array element (value fields "
+    "included) with every relational class, only on the champion inputs (a cover of all kinds of field per table kind; every "
+    "variable font); elsewhere table-level fields are sampled by seed",
     "a fault sequence is crossed with the entry point groups that asked the table provider for a damaged table on the "
     "intact font (all groups for header-level faults, truncation, removal and swaps)",
     "container-level expectations are exact for sfnt, collections and uncompressed WOFF tables; for zlib-wrapped WOFF "
@@ -69,6 +76,12 @@ REQUIRED_TABLE_KINDS = {
     "EBLC": ("count", "offset"), "SVG ": ("count", "offset"),
 }
 # kinds of field on which the classes "self" / "parent" must have been instantiated
+# table kinds ("dir" = container level) in which every relational class must have been planned with an effect on the bytes and
+# applied in the run (arrays the repository fonts carry: segment maps, cmap segments / groups, offsets, records sorted by key)
+REQUIRED_REL_KINDS = ["dir", "avar", "fvar", "gvar", "HVAR", "MVAR", "STAT", "cmap", "loca", "name", "hmtx", "glyf", "CFF ", "CFF2",
+                      "GSUB", "GPOS", "kern", "post"]
+REL_PREV = ("eqprev", "prev+1", "prev-1", "uwrap-prev", "swrap-prev")
+REL_NEXT = ("eqnext", "next-1", "next+1", "uwrap-next", "swrap-next")
 REQUIRED_REF_KINDS = [r"^glyf:index:glyph\.comp\.glyphIndex$", r"^CFF :index:lsubr\.callsubr\.arg$", r"^CFF :index:gsubr\.callgsubr\.arg$",
                       r"^CFF2:index:lsubr\.callsubr\.arg$", r"^GSUB:index:lookup\.ctx.*lookupListIndex$", r"^dir:offset:rec\.offset$",
                       r"^CFF :offset:top\.op17\.arg$", r"^CFF :index:charstring\.seac\.[ab]char$"]
@@ -200,6 +213,7 @@ def _count(files, out):
     per_group = collections.defaultdict(collections.Counter)
     table_role = collections.defaultdict(collections.Counter)    # table kind -> role -> overwrites of table-level fields
     ref_kinds = collections.Counter()                            # reference-class overwrites per kind of field
+    rel_kinds = collections.defaultdict(collections.Counter)     # table kind -> relational class -> applied overwrites that changed the bytes
     died = collections.defaultdict(collections.Counter)
     ok_to_err = collections.Counter()
     more_err = collections.Counter()
@@ -238,6 +252,8 @@ def _count(files, out):
                             vcs[ft[2]] += 1
                         if ft[0] == "Overwrite" and ft[3] == "table" and ft[5] != "hook":
                             table_role[ft[4]][ft[1]] += 1
+                        if ft[2] in REL_PREV + REL_NEXT and ft[9] != "" and ft[9] != ft[8]:
+                            rel_kinds["dir" if ft[3] == "dir" else ft[4]][ft[2]] += 1
                         if ft[2] in ("self", "parent") and ft[9] != "":
                             ref_kinds["%s:%s:%s" % ("dir" if ft[3] == "dir" else ft[4], ft[1], _norm_field(ft[5]))] += 1
                     if noticed and g != "container" and a["nf"] >= 1 and a["nf"] not in [x["nf"] for x in samples]:
@@ -257,6 +273,7 @@ def _count(files, out):
         "flaky_events": flaky,
         "overwrites_per_table_kind_and_role": {t: dict(c) for t, c in sorted(table_role.items())},
         "reference_class_overwrites_per_field_kind": dict(sorted(ref_kinds.items())),
+        "relational_class_overwrites_per_table_kind": {t: dict(c) for t, c in sorted(rel_kinds.items())},
         "process_deaths_per_group": {g: dict(c) for g, c in died.items()},
         "samples": samples,
     })
@@ -363,8 +380,11 @@ def run(ctx):
     th.join()
     want_total = n_events + rep0["events"] + len(planted) + 1
     ctx.note("judge: %d events, %d non-conforming" % (total, len(mism)))
+    # failures of the tool itself are collected and raised after the violations are known: a violation that was found is
+    # reported (exit 1) even when a later stage fails
+    tool_errors = []
     if total != want_total:
-        raise vlib.ToolError("judge consumed %d events, expected %d" % (total, want_total))
+        tool_errors.append("judge consumed %d events, expected %d" % (total, want_total))
 
     seen = {}
     by_key, counts = {}, collections.Counter()
@@ -381,16 +401,18 @@ def run(ctx):
                 by_key[k] = (rank, m)
     for name, clause in expect.items():
         if clause not in seen.get(name, []):
-            raise vlib.ToolError("binding self-check failed: planted event %s was not rejected for %s (got %s)" % (name, clause, seen.get(name)))
+            tool_errors.append("binding self-check failed: planted event %s was not rejected for %s (got %s)" % (name, clause, seen.get(name)))
     for m in mism:
         if m["case"].startswith("selftest-died-"):
             ks = _keys(m)
             want = "%s|%s|wOF2" % (m["o"]["oc"], m["a"]["g"])
             if ks != [want]:
-                raise vlib.ToolError("binding self-check failed: planted dead-process event %s gives keys %s, expected %s" % (m["case"], ks, want))
+                tool_errors.append("binding self-check failed: planted dead-process event %s gives keys %s, expected %s" % (m["case"], ks, want))
     tool = [k for k in by_key if k.startswith("TOOL|")]
     if tool:
-        raise vlib.ToolError("events outside the alphabet of FaultModel / malformed views: %s %s" % (tool, vlib.short(by_key[tool[0]][1], 500)))
+        tool_errors.append("events outside the alphabet of FaultModel / malformed views: %s %s" % (tool, vlib.short(by_key[tool[0]][1], 500)))
+        for k in tool:
+            del by_key[k]
 
     violations = []
     for k, (_, m) in sorted(by_key.items()):
@@ -402,7 +424,7 @@ def run(ctx):
     # vacuity (a tool error only when nothing else is reported: on a tree broken so badly that nothing loads the
     # violations above are the message)
     missing = [r for r in ("count", "offset", "length", "version", "index", "value") if not counters["faults_per_role"].get(r)]
-    missing += [v for v in ("zero", "one", "max", "max-1", "hi7f", "hi80", "inc", "dec", "dbl", "filelen", "tablelen", "self", "parent")
+    missing += [v for v in ("zero", "one", "max", "max-1", "hi7f", "hi80", "inc", "dec", "dbl", "filelen", "tablelen", "self", "parent") + REL_PREV + REL_NEXT
                 if not counters["faults_per_value_class"].get(v)]
     # per table kind x role: a table kind in which the walk finds count / offset / index / length / version fields but
     # none of them was overwritten in this run; the table kinds the brief names must be there at all
@@ -424,6 +446,22 @@ def run(ctx):
     for pat in REQUIRED_REF_KINDS:
         if not any(re.search(pat, k) for k in got_ref):
             missing.append("reference class on a field matching " + pat)
+    # relational classes: every (table kind, class) the plan instantiates with an effect on the bytes (harness counter, computed
+    # from the plan and the input bytes) was applied in the recorded events; the table kinds whose arrays the brief names must
+    # have array elements on both sides and every class planned with an effect
+    got_rel = counters["relational_class_overwrites_per_table_kind"]
+    plan_rel = rep.get("planned_effective_relational_overwrites_per_table_kind", {})
+    rel_fields = rep.get("rel_fields_per_table_kind", {})
+    for t, cs in sorted(plan_rel.items()):
+        for vc, n in sorted(cs.items()):
+            if n and not got_rel.get(t, {}).get(vc):
+                missing.append("relational class %s on table kind %s (planned %d)" % (vc, t, n))
+    for t in REQUIRED_REL_KINDS:
+        if not rel_fields.get(t, {}).get("prev") or not rel_fields.get(t, {}).get("next"):
+            missing.append("array elements in table kind %s (required)" % t)
+        for vc in REL_PREV + REL_NEXT:
+            if not plan_rel.get(t, {}).get(vc):
+                missing.append("relational class %s on table kind %s (required)" % (vc, t))
     missing += [k for k in ("Overwrite", "Truncate", "RemoveTable", "ShrinkLength", "SwapTables") if not counters["faults_per_kind"].get(k)]
     vac = None
     if missing:
@@ -431,10 +469,13 @@ def run(ctx):
     elif not sum(counters["ok_to_err_per_group"].values()):
         vac = "vacuous fault model: no fault turned an Ok outcome into Err"
     if vac:
+        tool_errors.append(vac)
+    if tool_errors:
         known = vlib.load_known(ctx.prop)
         if all(v.key in known for v in violations):
-            raise vlib.ToolError(vac)
-        ctx.note(vac + " (reported violations take precedence)")
+            raise vlib.ToolError("; ".join(tool_errors))
+        for t in tool_errors:
+            ctx.note("TOOL PROBLEM (the reported violations take precedence): " + t)
     silent = [g for g in counters["outcomes_per_group"] if not counters["more_failing_calls_than_on_intact_per_group"].get(g)]
     coverage = {
         "evaluations": n_events,
@@ -472,7 +513,8 @@ def run(ctx):
     }
     for k in ("fault_sequences_run", "inputs", "faults_per_role", "faults_per_value_class", "faults_per_kind", "faults_per_level",
               "sequences_per_length", "outcomes_per_group", "ok_to_err_per_group", "more_failing_calls_than_on_intact_per_group",
-              "flaky_events", "overwrites_per_table_kind_and_role", "reference_class_overwrites_per_field_kind", "process_deaths_per_group"):
+              "flaky_events", "overwrites_per_table_kind_and_role", "reference_class_overwrites_per_field_kind",
+              "relational_class_overwrites_per_table_kind", "process_deaths_per_group"):
         coverage[k] = counters[k]
     vlib.finish(ctx, LEVEL, coverage, violations, ASSUMPTIONS)
 
